@@ -132,6 +132,38 @@ Section Proofs.
     intros Hj H L. rewrite (interleaving i jobs p0 p0 sched t j Hj). f_equal. eapply alone_done_mono; eauto.
   Qed.
 
+  (* the sequential oracle is one of the schedules: thread 0 for n0 steps, then thread 1 for n1 steps, ... *)
+  Lemma count_repeat_same t n : count_occ Nat.eq_dec (repeat t n) t = n.
+  Proof. induction n as [|n IH]; cbn [repeat count_occ]; auto. destruct (Nat.eq_dec t t); [lia|contradiction]. Qed.
+
+  Lemma count_repeat_other t u n : t <> u -> count_occ Nat.eq_dec (repeat u n) t = 0.
+  Proof.
+    intros H. induction n as [|n IH]; cbn [repeat count_occ]; auto.
+    destruct (Nat.eq_dec u t); [congruence|exact IH].
+  Qed.
+
+  Lemma count_seq_schedule fuels : forall base t,
+    count_occ Nat.eq_dec (seq_schedule base fuels) t = if Nat.ltb t base then 0 else nth (t - base) fuels 0.
+  Proof.
+    induction fuels as [|n r IH]; intros base t; cbn [seq_schedule].
+    - cbn [count_occ]. destruct (Nat.ltb t base); auto. destruct (t - base); reflexivity.
+    - rewrite count_occ_app, IH.
+      destruct (Nat.eq_dec t base) as [->|Hn].
+      + rewrite count_repeat_same. destruct (Nat.ltb_spec base (S base)); [|lia].
+        destruct (Nat.ltb_spec base base); [lia|]. rewrite Nat.sub_diag. cbn [nth]. lia.
+      + rewrite count_repeat_other; auto.
+        destruct (Nat.ltb_spec t (S base)), (Nat.ltb_spec t base); try lia; auto.
+        replace (t - base) with (S (t - S base)) by lia. reflexivity.
+  Qed.
+
+  Lemma sequential_schedule (i : inner) (jobs : list job) (p0 : pool) (fuels : list nat) t j r p :
+    nth_error jobs t = Some j -> alone i (nth t fuels 0) p (Running (init i j)) = Done r ->
+    nth_error (sy_threads (exec i (start init i p0 jobs) (seq_schedule 0 fuels))) t = Some (Done r).
+  Proof.
+    intros Hj H. eapply interleaving_complete; eauto.
+    rewrite count_seq_schedule. cbn [Nat.ltb Nat.leb]. rewrite Nat.sub_0_r. lia.
+  Qed.
+
   (* ---------------------------------------------------------------- several jobs per worker *)
   Lemma qstep_pool_irrelevant : forall i p1 p2 q,
     snd (qstep init step i p1 q) = snd (qstep init step i p2 q).
